@@ -45,6 +45,8 @@ pub struct Scn {
     pub failpoints: bool,
     /// connect one more client right before the stop while the accept thread's bookkeeping of dispatches is delayed
     pub late_client: bool,
+    /// a handler blocks its worker thread for 2.5 s starting 1.2 s after a graceful stop (shutdown_timeout 4 s)
+    pub stall: bool,
     /// signal scenario (child process): 0 none, else the signal number
     pub signal: i32,
 }
@@ -67,6 +69,24 @@ impl Scn {
         if let Ok(v) = std::env::var("VH_FORCE_SIGNAL") {
             signal = v.parse().unwrap_or(signal);
         }
+        if signal == 0 && r.chance(1, 12) {
+            // worker stalled across a shutdown tick
+            return Scn {
+                seed,
+                workers: 1,
+                held: 1,
+                graceful: true,
+                finish_ms: vec![None],
+                timeout_s: 4,
+                variant: Variant::Plain,
+                rt: if r.chance(1, 3) { RtKind::Tokio } else { RtKind::Actix },
+                uds: false,
+                failpoints: false,
+                late_client: false,
+                stall: true,
+                signal: 0,
+            };
+        }
         Scn {
             seed,
             workers,
@@ -79,6 +99,7 @@ impl Scn {
             uds: r.chance(1, 4),
             failpoints: r.chance(1, 2),
             late_client: r.chance(1, 3),
+            stall: false,
             signal,
         }
     }
@@ -88,7 +109,7 @@ impl Scn {
         }
         format!(
             "w{} held{} g{} finish{:?} to{}s {:?} {:?} uds{} f{} late{}",
-            self.workers, self.held, self.graceful as u8, self.finish_ms, self.timeout_s, self.variant, self.rt, self.uds as u8, self.failpoints as u8, self.late_client as u8
+            self.workers, self.held, self.graceful as u8, self.finish_ms, self.timeout_s, self.variant, self.rt, self.uds as u8, self.failpoints as u8, self.late_client as u8 + 2 * (self.stall as u8)
         )
     }
     pub fn to_json(&self) -> Value {
@@ -114,6 +135,7 @@ pub struct Seen {
     pub signal_runs_forced: u64,
     pub max_graceful_ms: u64,
     pub late_clients: u64,
+    pub stall_scenarios: u64,
 }
 
 pub enum Outcome {
@@ -251,6 +273,16 @@ pub fn run_scenario(scn: &Scn, seen: &mut Seen) -> Outcome {
     let watchdog = Duration::from_secs(scn.timeout_s + 6);
     let t_stop = Instant::now();
     *stop_issued.lock().unwrap() = Some(t_stop);
+    if scn.stall {
+        seen.stall_scenarios += 1;
+        let never = never.clone();
+        thread::spawn(move || {
+            thread::sleep(Duration::from_millis(1200));
+            if let Some(c) = never.lock().unwrap().first_mut() {
+                c.send(b"s");
+            }
+        });
+    }
     engine::uev("cmd_stop", scn.graceful as u64, 0, 0);
     let handle = run.handle.clone();
     let graceful = scn.graceful;
